@@ -115,7 +115,8 @@ def ev_un(op, bits, **kw):
         return run(e, lambda: a.hw(), [a], render=lambda x: x if isinstance(x, int) else -1)
     elif op == 'get_int': f = lambda: a[kw['i']]
     elif op == 'get_slice':
-        sl = slice(*[None if x == NONE else x for x in (kw['start'], kw['stop'], kw['step'])])
+        wrap = (lambda x: Bits(x, max(x.bit_length(), 1)) if (kw.get('bits_bounds') and isinstance(x, int) and x >= 0) else x)      # bounds given as vectors (__index__)
+        sl = slice(*[None if x == NONE else wrap(x) for x in (kw['start'], kw['stop'], kw['step'])])
         f = lambda: a[sl]
     elif op == 'get_list': f = lambda: a[list(kw['idx'])]
     else: raise ValueError(op)
@@ -155,7 +156,7 @@ class Obj:
         lst0 = list(val) if isinstance(val, list) else None
         e['raised'] = ''
         try:
-            if op == 'set_int': o[e['i']] = e['v']
+            if op == 'set_int': o[e['i']] = (mk([e['v']]) if e.get('vform') == 'bits' else e['v'])       # the value as an int or as a 1-bit vector
             elif op == 'set_slice':
                 o[slice(*[None if x == NONE else x for x in (e['start'], e['stop'], e['step'])])] = val
             elif op == 'set_list': o[list(e['idx'])] = val
